@@ -1,7 +1,10 @@
 """C01 — every 1-D quadrature rule is exact on its polynomial class, for every size.
 
-Genuine defects re-derived on every run (listed in known_findings.jsonl): FejerFirst(3) / FejerSecond(3) at degree 2
-(Coq: fejer1_exact_refuted, fejer2_exact_refuted; fixes proven exact: fejer1_fixed_exact, fejer2_fixed_exact).
+The series length of the two Fejer rules is read from the source (FejerFirst_terms / FejerSecond_terms in C01_gen.v).  The
+full-strength theorems fejer1_exact / fejer2_exact (C01_props_fejer{1,2}_exact.v) compile iff the constructor sums nsum
+terms; with the pinned nsum - 1 terms they fail, C01_refuted_fejer{1,2}.v compiles instead, the obligation is marked
+refuted (ctx.mark_refuted) and the concrete witness FejerFirst(3) / FejerSecond(3) at degree 2 is re-derived and reported
+under the positive theorem's name with the key of the listed known finding.
 
 gen:    scalar leaves of src/grid/onedgrid.py are re-translated on every run (props/c01_translate.py on top of
         vlib/py2coq_real, fail closed): _g2, _derg2, _g3, _derg3, _gstrip, _dergstrip (masked branches), the
@@ -49,9 +52,9 @@ DOMAINS = {  # declared domain of every class (hand model side; compared with th
     "ExpSinh": ("0", "np.inf"), "LogExpSinh": ("0", "np.inf"), "ExpExp": ("0", "np.inf"), "SingleTanh": ("-1", "1"),
     "SingleExp": ("0", "np.inf"), "SingleArcSinhExp": ("0", "np.inf"),
 }
-KNOWN = {  # canonical witnesses of the two genuine defects (Coq: fejer1_exact_refuted / fejer2_exact_refuted)
-    "FejerFirst": ("fejer1_exact_refuted", "FejerFirst(3):degree=2"),
-    "FejerSecond": ("fejer2_exact_refuted", "FejerSecond(3):degree=2"),
+KNOWN = {  # rule -> (positive obligation, refuting theorem, canonical witness key of the listed known finding)
+    "FejerFirst": ("fejer1_exact", "fejer1_exact_refuted", "FejerFirst(3):degree=2", "fejer1"),
+    "FejerSecond": ("fejer2_exact", "fejer2_exact_refuted", "FejerSecond(3):degree=2", "fejer2"),
 }
 MAXREP = 3
 TOL_REL = 1e-10  # moments: |sum - exact| <= TOL_REL * sum |w_i g(x_i)|  (measured rounding noise <= 3e-13 for n <= 64)
@@ -97,6 +100,10 @@ def gen(ctx: Ctx):
         inf = T.plain_ctor_info(src, classes[c])
         info[c] = inf
         units.append(T.unit(src, T._init_of(classes[c]), f"{c}.__init__", guards=inf["guards"], kind="hand model"))
+    for c in ("FejerFirst", "FejerSecond"):   # series length of the weight sums, read from the source
+        txt, length = T.series_terms(src, classes[c])
+        out.append(txt)
+        info[c]["series_length"] = length
     for c in TREF + STRIP:
         inf = T.trefethen_ctor(src, classes[c], c in STRIP)
         info[c] = inf
@@ -120,7 +127,7 @@ MODEL_NAMES = """pts_Trapezoidal wts_Trapezoidal pts_MidPoint wts_MidPoint pts_S
  wts_UniformInteger rrs_x pts_RectangleRuleSineEndPoints wts_RectangleRuleSineEndPoints pts_GaussChebyshevLobatto
  wts_GaussChebyshevLobatto chebgauss_x chebgauss_w pts_GaussChebyshev wts_GaussChebyshev cc_theta cc_jmed cc_bj cc_wi
  pts_ClenshawCurtis wts_ClenshawCurtis f1_theta f1_nsum f1_di pts_FejerFirst wts_FejerFirst f2_theta f2_nsum f2_wi
- pts_FejerSecond wts_FejerSecond rsum rev maybe_rev halve_ends
+ pts_FejerSecond wts_FejerSecond FejerFirst_terms FejerSecond_terms rsum rev maybe_rev halve_ends
  pts_GaussLegendre wts_GaussLegendre pts_GaussChebyshevType2 wts_GaussChebyshevType2 pts_GaussLaguerre wts_GaussLaguerre
  GaussChebyshev_points_reversed GaussChebyshev_weights_reversed GaussChebyshev_weights
  GaussLegendre_points_reversed GaussLegendre_weights_reversed GaussLegendre_weights
@@ -293,6 +300,16 @@ def run(ctx: Ctx):
     ctx.register_props(status)
     if not status.get("C01_model.v", False) or not status.get("C01_gen.v", False):
         raise RuntimeError("C01 model does not compile: " + (ctx.logs.get("C01_model.v", "") + ctx.logs.get("C01_gen.v", ""))[-600:])
+    # full-strength Fejer theorems: the positive file compiles iff the constructor sums nsum terms (series length read from
+    # the source); if it fails and the refuted file compiles, the obligation is decided by the refutation + known finding
+    truncated = {}
+    for cname, (pos, ref, _, stem) in KNOWN.items():
+        truncated[cname] = (not status.get(f"C01_props_{stem}_exact.v", False)) and status.get(f"C01_refuted_{stem}.v", False)
+        if truncated[cname]:
+            ctx.mark_refuted(pos, ref)
+        ctx.cov.setdefault("fejer_series_length", {})[cname] = {"source": info[cname].get("series_length"),
+                                                               "positive_theorem_compiles": bool(status.get(f"C01_props_{stem}_exact.v", False)),
+                                                               "refuted_file_compiles": bool(status.get(f"C01_refuted_{stem}.v", False))}
     rep = Rep(ctx)
     rng = ctx.rng
     import time as _t
@@ -310,6 +327,23 @@ def run(ctx: Ctx):
     def case(goal, tac, **kw):
         cases.append((goal, tac))
         meta.append(kw)
+
+    raw_build = globals()["build"]
+    raised = set()
+
+    def build(cls, *a):  # noqa: F811 - a constructor that raises on admissible arguments is a concrete failing input
+        try:
+            return raw_build(cls, *a)
+        except Exception as e:  # noqa: BLE001
+            args_txt = ", ".join(x.__name__ if isinstance(x, type) else repr(x) for x in a)
+            n0 = a[0] if a and isinstance(a[0], int) else 0
+            if (cls.__name__, args_txt) in raised:
+                return None
+            raised.add((cls.__name__, args_txt))
+            rep.add(n0, f"shape_{cls.__name__}_constructs", f"{cls.__name__}({args_txt}):raises", type(e).__name__,
+                    f"{cls.__name__}({args_txt}) raises {type(e).__name__}: {str(e)[:120]} on admissible arguments",
+                    {"rule": cls.__name__, "args": args_txt, "reproduce": f"grid.onedgrid.{cls.__name__}({args_txt})"})
+            return None
 
     def lit_array(prefix, arr):
         name = f"{prefix}_{len(defs)}"
@@ -357,15 +391,16 @@ def run(ctx: Ctx):
             ctx.case(("moment", key0, d))
             if abs(s - e) > TOL_REL * max(S, m.mpf(10) ** -300) + m.mpf(10) ** -300:
                 nbad += 1
-                if cname in KNOWN and not args_txt.count(","):
+                if truncated.get(cname) and not args_txt.count(","):
+                    # the refuted model predicts exactly one failing degree per size (fejer1_defect_every_odd_n / fejer2_defect_every_n)
                     pred = (n % 2 == 1 and n >= 3 and d == n - 1) if cname == "FejerFirst" else (n >= 2 and d == 2 * ((n + 1) // 2 - 1))
                     if pred:
-                        ob, kkey = KNOWN[cname]
+                        pos, ref, kkey, _ = KNOWN[cname]
                         if f"{cname}({n}):degree={d}" == kkey:
-                            rep.add(0, ob, kkey, round(float(s), 9),
+                            rep.add(0, pos, kkey, round(float(s), 9),
                                     f"{key0}: sum w_i x_i^{d} = {float(s):.12g}, integral of x^{d} over [-1,1] = {float(e):.12g} "
                                     f"(series of the weights stops one term early; same defect at every "
-                                    f"{'odd n >= 3, degree n-1' if cname == 'FejerFirst' else 'n >= 2, degree 2*((n+1)//2-1)'})",
+                                    f"{'odd n >= 3, degree n-1' if cname == 'FejerFirst' else 'n >= 2, degree 2*((n+1)//2-1)'}; Coq: {ref})",
                                     {"rule": cname, "n": n, "degree": d, "expected": float(e), "reproduce": f"g={cname}({n}); (g.weights*g.points**{d}).sum()"})
                         ctx.count(f"known-defect:{cname}")
                         continue
@@ -412,6 +447,8 @@ def run(ctx: Ctx):
     for cname, cls, odd, deg in plain_specs:
         for n in sizes(ctx, odd_only=odd, lo=3 if odd else 2):
             g = build(cls, n)
+            if g is None:
+                continue
             if not check_shape(cname, str(n), g, n):
                 continue
             check_closed_form(cname, g, n)
@@ -426,6 +463,8 @@ def run(ctx: Ctx):
             if odd and n % 2 == 0:
                 continue
             g = build(cls, n)
+            if g is None:
+                continue
             if deg == "cheb1":
                 check_moments(cname, str(n), g, n, 2 * n - 1, int_cheb1, lambda x: 1 / m.sqrt(1 - x * x), what="x^d/sqrt(1-x^2)")
             else:
@@ -447,6 +486,8 @@ def run(ctx: Ctx):
     gl_sizes = sizes(ctx)
     for n in gl_sizes:
         g = build(og.GaussLegendre, n)
+        if g is None:
+            continue
         ox, ow = np.polynomial.legendre.leggauss(n)
         if check_shape("GaussLegendre", str(n), g, n):
             a, b = lit_array("lx", ox), lit_array("lw", ow)
@@ -455,6 +496,8 @@ def run(ctx: Ctx):
                 case(goal_close(f"wts_GaussLegendre {a} {b} {n} {k}", g.weights[k]), "ev; fin", rule="GaussLegendre", n=n, k=k, what="weights", args=str(n))
                 ctx.case(("tie", "GaussLegendre", n, k), traces=2)
         g2 = build(og.GaussChebyshevType2, n)
+        if g2 is None:
+            continue
         ux, uw = roots_chebyu(n)
         if check_shape("GaussChebyshevType2", str(n), g2, n):
             a, b = lit_array("ux", ux), lit_array("uw", uw)
@@ -468,6 +511,8 @@ def run(ctx: Ctx):
             if ctx.quick and ai in (1, 2) and n not in (2, 5, 8):
                 continue
             g = build(og.GaussLaguerre, n, al)
+            if g is None:
+                continue
             lx, lw = roots_genlaguerre(n, al)
             args = f"{n}, {al!r}"
             if check_shape("GaussLaguerre", args, g, n):
@@ -484,8 +529,11 @@ def run(ctx: Ctx):
         oracle_validate("roots_chebyu", ux, uw, n, int_cheb2, f"scipy.special.roots_chebyu({n})")
         if not (np.all(np.diff(ox) > 0) and np.all(np.abs(ox) < 1) and np.all(np.diff(ux) > 0) and np.all(np.abs(ux) < 1)):
             rep.add(n, "oracle_nodes", f"oracle-nodes:{n}", None, f"library nodes for n={n} are not ascending inside (-1,1)", {})
-        check_moments("GaussLegendre", str(n), build(og.GaussLegendre, n), n, 2 * n - 1, int_legendre)
-        check_moments("GaussChebyshevType2", str(n), build(og.GaussChebyshevType2, n), n, 2 * n - 1, int_cheb2, lambda x: m.sqrt(1 - x * x), what="sqrt(1-x^2) x^d")
+        gl_, gu_ = build(og.GaussLegendre, n), build(og.GaussChebyshevType2, n)
+        if gl_ is not None:
+            check_moments("GaussLegendre", str(n), gl_, n, 2 * n - 1, int_legendre)
+        if gu_ is not None:
+            check_moments("GaussChebyshevType2", str(n), gu_, n, 2 * n - 1, int_cheb2, lambda x: m.sqrt(1 - x * x), what="sqrt(1-x^2) x^d")
     for al in alphas + [2.25, 7.5]:
         for n in range(2, nmax_o + 1, 1 if ctx.quick is False else 3):
             lx, lw = roots_genlaguerre(n, al)
@@ -493,6 +541,8 @@ def run(ctx: Ctx):
             if not (np.all(np.diff(lx) > 0) and np.all(lx > 0)):
                 rep.add(n, "oracle_nodes", f"oracle-nodes-laguerre:{n}:{al}", None, f"roots_genlaguerre({n},{al}) nodes are not ascending in (0,inf)", {})
             g = build(og.GaussLaguerre, n, al)
+            if g is None:
+                continue
             check_moments("GaussLaguerre", f"{n}, {al!r}", g, n, 2 * n - 1, lambda d, al=al: m.gamma(d + m.mpf(al) + 1),
                           lambda x, al=al: x ** m.mpf(al) * m.exp(-x), what="x^alpha exp(-x) x^d")
 
@@ -511,6 +561,8 @@ def run(ctx: Ctx):
                 hs.append(float(dflt))
             for h in hs:
                 g = build(cls, n, h)
+                if g is None:
+                    continue
                 args = f"{n}, {h!r}"
                 if not check_shape(cname, args, g, n):
                     continue
@@ -561,6 +613,8 @@ def run(ctx: Ctx):
             for tname, tcls, bcls2, a in combos:
                 g = build(tcls, *a)
                 b = build(bcls2, n)
+                if g is None or b is None:
+                    continue
                 args = f"{n}, d={d}"
                 cname = tname.split("[")[0]
                 if not check_shape(cname, f"{args}" + (f", {tname}" if "[" in tname else ""), g, n):
@@ -592,6 +646,8 @@ def run(ctx: Ctx):
                                 ctx.case(("leaf", fname, x))
             if d != 1 and (not ctx.quick or n <= 8):
                 g = build(og.TrefethenCC, n, d)
+                if g is None:
+                    continue
                 for k in range(n):
                     case(goal_close(f"pts_TrefethenCC {d} {n} {k}", g.points[k]), "ev; fin", rule="TrefethenCC", n=n, k=k, what="points", args=f"{n}, {d}")
                     case(goal_close(f"wts_TrefethenCC {d} {n} {k}", g.weights[k]), "ev; fin", rule="TrefethenCC", n=n, k=k, what="weights", args=f"{n}, {d}")
@@ -606,6 +662,8 @@ def run(ctx: Ctx):
             for tname, tcls, bcls2, a in combos:
                 g = build(tcls, *a)
                 b = build(bcls2, n)
+                if g is None or b is None:
+                    continue
                 args = f"{n}, rho={rho!r}"
                 cname = tname.split("[")[0]
                 if not check_shape(cname, args + (f", {tname}" if "[" in tname else ""), g, n):
@@ -689,9 +747,12 @@ def run(ctx: Ctx):
                     {"coq_goal": cases[i][0][:400], "rule": mt["rule"], "args": mt["args"]}, found=False)
 
     rep.flush()
-    ctx.sample({"rule": "ClenshawCurtis", "n": 7, "weights": [float(x) for x in build(og.ClenshawCurtis, 7).weights]})
-    ctx.sample({"rule": "FejerFirst", "n": 3, "sum w x^2": float((build(og.FejerFirst, 3).weights * build(og.FejerFirst, 3).points ** 2).sum()), "exact": 2 / 3})
-    ctx.sample({"rule": "FejerSecond", "n": 3, "sum w x^2": float((build(og.FejerSecond, 3).weights * build(og.FejerSecond, 3).points ** 2).sum()), "exact": 2 / 3})
+    for cname_s, n_s in (("ClenshawCurtis", 7), ("FejerFirst", 3), ("FejerSecond", 3)):
+        try:
+            gs = raw_build(getattr(og, cname_s), n_s)
+            ctx.sample({"rule": cname_s, "n": n_s, "weights": [float(x) for x in gs.weights], "sum w x^2": float((gs.weights * gs.points ** 2).sum()), "exact": 2 / 3})
+        except Exception:  # noqa: BLE001 - reported above
+            pass
     ctx.cov["rule"] = (
         "tie: every node and every weight of every rule class at every size n = 2..12 (odd sizes for the odd-only rules; thorough adds "
         "13,16,17,25,41,60) is enclosed by `interval` within 1e-9(1+|y|) of the Coq model value; extra parameters "
